@@ -394,7 +394,54 @@ def setup_cases():
                 ctx.oblige("a setUp path stopped by an unsupported feature is reported (INTERNAL_ERROR)", z3.BoolVal(warned_with(ctx, n0, code=INTERNAL_ERROR)))
 
         out.append(Case(f"{PROP}/__main__.setup#paths", kind_, harness_paths, replay=replay_setup_stuck, sources=("halmos.__main__:setup", "halmos.sevm:CallContext.is_stuck")))
+    out += setup_selection_cases()
     return out
+
+
+def setup_selection_cases():
+    """setup(): with several successful setUp paths each one is kept unless its query is PROVED unsat; a timeout
+    (unknown, returncode 124), a solver error or sat keeps it (and two kept paths stop the run with an error)"""
+    import itertools
+
+    from z3 import sat, unknown, unsat
+
+    out = []
+    kinds = {"unsat": unsat, "sat": sat, "unknown (timeout)": unknown, "error": hsolve_err()}
+    for ka, kb in itertools.product(kinds, repeat=2):
+
+        def harness(interp, ka=ka, kb=kb):
+            ctx = interp.ctx
+            sf, node = loader.func_node(hm.setup)
+            ms = [st for st in node.body if isinstance(st, ast.Match) and ast.unparse(st.subject) == "setup_exs_no_error"]
+            if len(ms) != 1:
+                raise loader.BindingError("setup(): `match setup_exs_no_error:` not found")
+            exs = [NS(tag="path 0"), NS(tag="path 1")]
+            res = [kinds[ka], kinds[kb]]
+            asked = []
+
+            def solve(i, *a, **k):
+                pc = a[0]
+                asked.append(pc.path_id)
+                return NS(result=res[pc.path_id], returncode=124 if "timeout" in (ka, kb)[pc.path_id] else 0, path_id=pc.path_id, error=None, model=None, unsat_core=None)
+
+            interp.externals[hm.solve_low_level] = solve
+            interp.externals[hm.PathContext] = lambda i, *a, **k: NS(**k)
+            kept = []
+            env = Env({"setup_exs_no_error": [(exs[0], "<q0>"), (exs[1], "<q1>")], "setup_exs": kept, "args": NS(), "ctx": NS(solving_ctx=NS())}, None, hm.__dict__)
+            kind, payload, _ = interp.exec_fragment([ms[0]], env, qual="halmos.__main__:setup#selection", is_gen=False)
+            want = [e for e, r in zip(exs, res) if r is not unsat]
+            ctx.oblige("the selection runs to its end", z3.BoolVal(kind == "fallthrough"), info={"kind": kind, "payload": str(payload)[:100]})
+            ctx.oblige("a successful setUp path is dropped only if its query is proved unsat: a timeout (unknown), a solver error or sat keeps it", z3.BoolVal([id(e) for e in kept] == [id(e) for e in want]), info={"kept": [e.tag for e in kept], "want": [e.tag for e in want]})
+            ctx.oblige("each path's own query is the one solved (path ids 0, 1 in order)", z3.BoolVal(asked == [0, 1]))
+
+        out.append(Case(f"{PROP}/__main__.setup#selection", f"{ka}, {kb}", harness, replay=replay_script("setup_timeout_path.py", "two successful setUp() paths, the solver times out on the first query"), sources=("halmos.__main__:setup",)))
+    return out
+
+
+def hsolve_err():
+    import halmos.solve as hsolve_
+
+    return getattr(hsolve_, "err", "err")
 
 
 def replay_setup_stuck(r):
@@ -638,8 +685,17 @@ def frontier_stuck_cases():
     return [Case(f"{PROP}/__main__._compute_frontier#stuck", "stuck / not stuck", harness, sources=("halmos.__main__:_compute_frontier",))]
 
 
+def frontier_body_cases():
+    """the body of the target-call loop of _compute_frontier, in the order the code runs it (C15's unit): a stuck call is
+    logged before any `ignore` exit"""
+    from contracts import c15
+    from contracts.common import rewrap
+
+    return rewrap(PROP, c15.frontier_cases(), "stuck-call-reported", lambda c: c.case in ("stuck", "reverted"))
+
+
 def build_cases(tier="quick"):
-    return logs_cases() + setup_cases() + jumpi_cases() + depth_cases() + except_arm_cases() + loop_bound_cases() + owner_cases() + engine_logs_frame_cases() + width_and_stuck_cases() + frontier_stuck_cases()
+    return frontier_body_cases() + logs_cases() + setup_cases() + jumpi_cases() + depth_cases() + except_arm_cases() + loop_bound_cases() + owner_cases() + engine_logs_frame_cases() + width_and_stuck_cases() + frontier_stuck_cases()
 
 
 ASSUMPTIONS = [
